@@ -384,6 +384,12 @@ func runFullStack(r *prng.R, s *out.Sink, tier string) {
 					for i := range ids {
 						ids[i] = uint16(i + 1)
 					}
+					if k%2 == 1 {
+						// node = party identifiers from the corners of the 16-bit range (the map is still the identity)
+						ids = pickIDs(r, x.n)
+						sort.Slice(ids, func(i, j int) bool { return ids[i] < ids[j] })
+						s.Count("dkg/corner-identifiers")
+					}
 					c := stackCfg{scheme: scheme, mode: mode, n: x.n, t: x.t, ids: ids, msgLen: 2}
 					if scheme == "bls" {
 						c.scheme = "bls-hello" // orchestrated signing with the partial signer made interactive (see helloSigner)
